@@ -33,15 +33,17 @@ def FieldsOKn (P : Prog) (tm : Recs) (n : Nat) : Prop :=
     Sat P tm st (evalFields n P σ assigns acc) (fun st' fs => FieldsTyped P st'.heap c fs ∧
       ∀ f, ((lookup f acc).isSome = true ∨ assigns.any (fun p => p.1 == f) = true) → (lookup f fs).isSome = true)
 
-def StmtSpec (P : Prog) (C : Ctx) (out : Option Env) : State → Ctl → Prop :=
+def StmtSpec (P : Prog) (C : Ctx) (r : SRes) : State → Ctl → Prop :=
   fun st' ctl => match ctl with
-    | .normal σ' => ∃ Γ', out = some Γ' ∧ StoreOK P st'.heap C.decl Γ' σ'
+    | .normal σ' => ∃ Γ', r.out = some Γ' ∧ StoreOK P st'.heap C.decl Γ' σ'
     | .ret v => hasTy P st'.heap v C.ret
+    | .brk σ' => ∃ Γ', Γ' ∈ r.brks ∧ StoreOK P st'.heap C.decl Γ' σ'
+    | .cont σ' => ∃ Γ', Γ' ∈ r.conts ∧ StoreOK P st'.heap C.decl Γ' σ'
 
 def StmtOK (P : Prog) (tm : Recs) (n : Nat) : Prop :=
-  ∀ (k : Nat) (C : Ctx) (Γ : Env) (s : Stmt) (r : Option Env × Recs) (σ : Store) (st : State), C.P = P →
-    tcS k C (some Γ) s = .ok r → (∀ x ∈ r.2, x ∈ tm) → StoreOK P st.heap C.decl Γ σ →
-    Sat P tm st (evalS n P σ s) (StmtSpec P C r.1)
+  ∀ (k : Nat) (C : Ctx) (Γ : Env) (s : Stmt) (r : SRes) (σ : Store) (st : State), C.P = P →
+    tcS k C (some Γ) s = .ok r → (∀ x ∈ r.recs, x ∈ tm) → StoreOK P st.heap C.decl Γ σ →
+    Sat P tm st (evalS n P σ s) (StmtSpec P C r)
 
 structure EvalOK (P : Prog) (tm : Recs) (n : Nat) : Prop where
   expr : ExprOK P tm n
@@ -103,7 +105,7 @@ theorem storeOK_init {h : Heap} {vs : List Val} {Ts Ls : List Ty} (ha : ArgsOK P
 theorem callBody_ok (hs : StmtOK P tm n) {self : Option Nat} {fd : FuncDef} {vs : List Val} {st : State}
     (hf : FuncOK P tm self fd) (ha : ArgsOK P st.heap vs (selfTys self ++ fd.params)) :
     Sat P tm st (callBody (evalS n P) fd vs) (fun st' v => hasTy P st'.heap v fd.ret) := by
-  obtain ⟨r, hr, hrecs, hend⟩ := hf
+  obtain ⟨r, hr, hrecs, hend, hb, hc⟩ := hf
   unfold callBody
   have hst : StoreOK P st.heap (selfTys self ++ fd.params ++ fd.locals) [] (initStore fd vs) := storeOK_init ha
   refine sat_bind (hs tcFuel _ [] fd.body r _ st rfl hr hrecs hst) ?_
@@ -115,6 +117,8 @@ theorem callBody_ok (hs : StmtOK P tm n) {self : Option Nat} {fd : FuncDef} {vs 
     apply sat_pure
     rw [this]; exact ⟨.none, by simp, by simp [hasAtom]⟩
   | ret v => exact sat_pure hspec
+  | brk σ' => obtain ⟨Γ', hm, _⟩ := hspec; rw [hb] at hm; simp at hm
+  | cont σ' => obtain ⟨Γ', hm, _⟩ := hspec; rw [hc] at hm; simp at hm
 
 /-! ## Dynamic method lookup -/
 
@@ -286,13 +290,36 @@ theorem expr_step (t : Typed P tm) (ih : EvalOK P tm n) : ExprOK P tm (n + 1) :=
     | none => rw [hx] at htc; simp at htc
     | some Tx =>
       rw [hx] at htc
-      simp only [bind_ok, req_ok, pure_ok] at htc
-      obtain ⟨_, _, hr⟩ := htc; subst hr
+      simp only at htc
       simp only [evalE]
       refine sat_mono sat_readVar ?_
       intro st' v _ hv
       obtain ⟨rfl, hv⟩ := hv
-      exact spec_plain (hst x Tx hx v hv)
+      have hvT := hst x Tx hx v hv
+      cases cd with
+      | false => simp only [Bool.false_eq_true, if_false, pure_ok] at htc; subst htc; exact spec_plain hvT
+      | true =>
+        simp only [if_true] at htc
+        split at htc
+        · simp only [pure_ok] at htc; subst htc
+          have single : ∀ U : Ty, hasTy C.P st'.heap v U → MapOK C.P st'.heap σ (some [(x, U)]) := by
+            intro U hu
+            apply MapOK.single (fun hc => hasTy_nil (hc ▸ hu))
+            intro v' hv'; rw [hv] at hv'; cases hv'; exact hu
+          refine ⟨hvT, ?_, fun _ => single _ hvT⟩
+          intro htv
+          obtain ⟨a, ha, hva⟩ := hvT
+          have hmem : a ∈ (effTy C.decl Γ x).filter (fun a => a != .none) := by
+            refine List.mem_filter.mpr ⟨ha, ?_⟩
+            cases a <;> simp
+            cases v <;> simp [hasAtom] at hva
+            simp [truthy] at htv
+          split
+          · next he =>
+            have hnil := List.isEmpty_iff.mp he
+            rw [hnil] at hmem; simp at hmem
+          · exact single _ ⟨a, hmem, hva⟩
+        · cases htc
   | attr e f =>
     simp only [tcE, bind_ok, req_ok, pure_ok] at htc
     obtain ⟨_, _, r0, hr0, _, _, ts, hts, hr⟩ := htc
@@ -535,6 +562,59 @@ theorem expr_step (t : Typed P tm) (ih : EvalOK P tm n) : ExprOK P tm (n + 1) :=
         obtain ⟨s2, rfl⟩ := str_val hu1
         simp only [addVal]
         exact sat_pure (spec_plain ⟨.str, by simp, by simp [hasAtom]⟩)
+      · cases htc
+  | sub a b =>
+    simp only [tcE, bind_ok] at htc
+    obtain ⟨ra, hra, rb, hrb, htc⟩ := htc
+    simp only [evalE]
+    split at htc
+    · next hi =>
+      simp only [pure_ok] at htc; subst htc
+      refine sat_bind (ih.expr k C Γ false false a ra σ st rfl hra (fun x hx => hrecs x (List.mem_append_left _ hx)) hst) ?_
+      intro st1 v e1 hv
+      refine sat_bind (ih.expr k C Γ false false b rb σ st1 rfl hrb (fun x hx => hrecs x (List.mem_append_right _ hx)) (hst.ext e1)) ?_
+      intro st2 u e2 hu
+      simp only [Bool.and_eq_true] at hi
+      obtain ⟨x, hx, _⟩ := intLike_toInt hv.1 hi.1
+      obtain ⟨y, hy, _⟩ := intLike_toInt hu.1 hi.2
+      simp only [subVal, hx, hy]
+      exact sat_pure (spec_plain ⟨.int, by simp, by simp [hasAtom]⟩)
+    · cases htc
+  | lt a b =>
+    simp only [tcE, bind_ok] at htc
+    obtain ⟨ra, hra, rb, hrb, htc⟩ := htc
+    simp only [evalE]
+    have hsub : ∀ x, x ∈ ra.recs ++ rb.recs → x ∈ tm := by
+      intro x hx
+      split at htc
+      · simp only [pure_ok] at htc; subst htc; exact hrecs x hx
+      · split at htc
+        · simp only [pure_ok] at htc; subst htc; exact hrecs x hx
+        · cases htc
+    refine sat_bind (ih.expr k C Γ false false a ra σ st rfl hra (fun x hx => hsub x (List.mem_append_left _ hx)) hst) ?_
+    intro st1 v e1 hv
+    refine sat_bind (ih.expr k C Γ false false b rb σ st1 rfl hrb (fun x hx => hsub x (List.mem_append_right _ hx)) (hst.ext e1)) ?_
+    intro st2 u e2 hu
+    split at htc
+    · next hi =>
+      simp only [pure_ok] at htc; subst htc
+      simp only [Bool.and_eq_true] at hi
+      obtain ⟨x, hx, hxs⟩ := intLike_toInt hv.1 hi.1
+      obtain ⟨y, hy, _⟩ := intLike_toInt hu.1 hi.2
+      have : ltVal v u = some (decide (x < y)) := by
+        cases v <;> simp [toInt?] at hx <;> cases u <;> simp [toInt?] at hy <;> simp [ltVal, toInt?, hx, hy]
+      rw [this]
+      exact sat_pure (spec_plain (hasTy_bool _))
+    · split at htc
+      · next hs =>
+        simp only [pure_ok] at htc; subst htc
+        simp only [Bool.and_eq_true] at hs
+        have hv1 := hv.1; rw [beq_ty hs.1] at hv1
+        have hu1 := hu.1; rw [beq_ty hs.2] at hu1
+        obtain ⟨s1, rfl⟩ := str_val hv1
+        obtain ⟨s2, rfl⟩ := str_val hu1
+        simp only [ltVal]
+        exact sat_pure (spec_plain (hasTy_bool _))
       · cases htc
   | probe pk e =>
     simp only [tcE, bind_ok, req_ok, pure_ok] at htc
